@@ -1,5 +1,5 @@
 import Driver.Util
-import Faithful.Lib.CompactIndex
+import Faithful.Lib.CompactIndexLegacy
 open Drv CI
 
 namespace DrvC04
@@ -14,6 +14,9 @@ structure St where
   ix : Option IndexA := none
   file : File := #[]
   db : Option DB := none
+  legacy : Option Legacy := none
+  fileSize : Nat := 0
+  ldb : Option LDB := none
 
 def showLook : Look → String
   | .found v => s!"found {hex v}"
@@ -27,6 +30,15 @@ def step (st : St) (l : String) : St × Option String :=
     let vs := a.toNat!; let d := b.toNat!
     let ok := !(vs = 0 ∨ vs > 255 - Generated.hashSize ∨ d = 0)
     ({ vs := vs, declared := d, newOk := ok }, some (if ok then "ok" else "err"))
+  | ["newl8", fsz, b] =>
+    -- deprecated/compactindex NewBuilder(dir, numItems, targetFileSize); targetFileSize 0 means MaxUint64
+    let fs0 := fsz.toNat!
+    let fs := if fs0 = 0 then 2^64 - 1 else fs0
+    ({ vs := intWidth fs, declared := b.toNat!, newOk := true, legacy := some .l8, fileSize := fs }, some "ok")
+  | ["newl36", fsz, b] =>
+    let fs0 := fsz.toNat!
+    let fs := if fs0 = 0 then 2^64 - 1 else fs0
+    ({ vs := 36, declared := b.toNat!, newOk := true, legacy := some .l36, fileSize := fs }, some "ok")
   | ["meta", k, v] =>
     if !st.newOk then (st, some "nobuilder")
     -- indexmeta.Meta.Add: at most MaxNumKVs pairs, keys and values at most MaxKeySize / MaxValueSize bytes
@@ -38,19 +50,38 @@ def step (st : St) (l : String) : St × Option String :=
     -- Insert: a key the spill file cannot represent (length > 65535) is an error; a key whose bucket hash
     -- does not terminate is `hang`
     if key.length > 65535 then (st, some "err")
+    -- legacy 8-byte format: a value that needs more bytes than intWidth(FileSize) is refused
+    else if st.legacy = some .l8 ∧ intWidth (B.unle (unhex v)) > st.vs then (st, some "err")
     else match HF.real.bucket key (numBucketsFor st.declared) with
       | none => (st, some "hang")
-      | some _ => ({ st with kvs := st.kvs.push ⟨key, unhex v⟩ }, some "ok")
+      | some _ =>
+        let val := if st.legacy = some .l8 then B.le st.vs (B.unle (unhex v)) else unhex v
+        ({ st with kvs := st.kvs.push ⟨key, val⟩ }, some "ok")
   | ["seal"] =>
     if !st.newOk then (st, some "nobuilder") else
     match buildA HF.real st.vs st.declared st.mta.toList st.kvs.toList with
     | .error e => ({ st with ix := none, db := none }, some s!"err {repr e}")
     | .ok ix =>
+      match st.legacy with
+      | some lf =>
+        let f := (encodeLegacy lf st.fileSize ix).toArray
+        let ldb := openLegacy lf f
+        ({ st with ix := some ix, file := f, ldb := ldb, db := none },
+          some s!"file {f.size} {hexNat (H.xxhash64 f.toList).toNat 16} open={ldb.isSome}")
+      | none =>
       let f := (encode ix).toArray
       let db := match openB f with | .ok db => some db | _ => none
       ({ st with ix := some ix, file := f, db := db },
         some s!"file {f.size} {hexNat (H.xxhash64 f.toList).toNat 16} open={db.isSome}")
   | ["lookup", k] =>
+    match st.legacy, st.ix, st.ldb with
+    | some lf, some ix, some ldb =>
+      let key := unhex k
+      let a := lookupA HF.real ix key
+      let b := lookupLegacy HF.real lf st.file ldb key
+      (st, some (showLook b ++ (if a = b then "" else " MODEL-LAYERS-DISAGREE")))
+    | some _, _, _ => (st, some "nofile")
+    | none, _, _ =>
     match st.ix, st.db with
     | some ix, some db =>
       let key := unhex k
